@@ -45,6 +45,14 @@ int kalign_msa_compare(struct msa *r, struct msa *t,  float *score)
         kalign_sort_msa(r);
         kalign_sort_msa(t);
 
+        /* rows are matched by position: both alignments have to hold the same sequences */
+        ASSERT(r->numseq == t->numseq, "The alignments hold different numbers of sequences (%d and %d).", r->numseq, t->numseq);
+        for(int i = 0; i < r->numseq;i++){
+                if(r->sequences[i]->len != t->sequences[i]->len){
+                        ERROR_MSG("Sequence %s has %d residues in one alignment and %d in the other.", r->sequences[i]->name, r->sequences[i]->len, t->sequences[i]->len);
+                }
+        }
+
         MMALLOC(stat, sizeof(struct cmp_stats));
         stat->identical_gaps = 0;
 
